@@ -1,0 +1,78 @@
+//go:build verif
+
+package packet
+
+// Contracts for CONNACK and PUBLISH (govc, /verif). Comments only.
+//
+// Layout and validity predicates are written from MQTT 3.1.1 §3.2 / §3.3, not
+// from the code.
+
+// ---------------------------------------------------------------- CONNACK (§3.2)
+//
+//@ spec pred connack_valid(src []byte) = hdr_ok(src, 2) && rlen(src) == 2 && src[hlen(src)] <= 1 && src[hlen(src)+1] <= 5
+//@ spec pred connack_layout(dst []byte, sp bool, code int) = dst[0] == 32 && dst[1] == 2 && dst[2] == (sp ? 1 : 0) && dst[3] == code
+//
+//@ func (c *Connack) Len() (n int)
+//@   ensures n == 4
+//@ func (c *Connack) Decode(src []byte) (n int, err error)
+//@   ensures [bound]  0 <= n && n <= len(src)
+//@   ensures [accept] err == nil <==> connack_valid(src)
+//@   ensures [extent] err == nil ==> n == hlen(src) + rlen(src)
+//@   ensures [fields] err == nil ==> (c.SessionPresent <==> src[hlen(src)] == 1) && c.ReturnCode == src[hlen(src)+1]
+//@   modifies c.SessionPresent, c.ReturnCode
+//@ func (c *Connack) Encode(dst []byte) (n int, err error)
+//@   ensures [ok]     err == nil <==> c.ReturnCode <= 5 && len(dst) >= 4
+//@   ensures [count]  err == nil ==> n == 4
+//@   ensures [layout] err == nil ==> connack_layout(dst, c.SessionPresent, c.ReturnCode)
+//@   modifies dst[0:min(5, len(dst))]
+//
+//@ lemma roundtrip_connack(b []byte, sp bool, code int)
+//@   requires len(b) == 4 && connack_layout(b, sp, code) && 0 <= code && code <= 5
+//@   ensures [valid]  connack_valid(b)
+//@   ensures [extent] hlen(b) + rlen(b) == 4
+//@   ensures [fields] (b[hlen(b)] == 1 <==> sp) && b[hlen(b)+1] == code
+
+// ---------------------------------------------------------------- PUBLISH (§3.3)
+//
+//@ spec func pubrl(p *Publish) int = 2 + len(p.Message.Topic) + len(p.Message.Payload) + (p.Message.QOS != 0 ? 2 : 0)
+//@ spec pred wf_publish(p *Publish) = len(p.Message.Topic) >= 1 && len(p.Message.Topic) <= 65535 && p.Message.QOS <= 2 && (p.Message.QOS > 0 ==> p.ID != 0) && pubrl(p) <= 268435455
+//@ spec func pubflags(p *Publish) int = (p.Dup ? 8 : 0) + 2*p.Message.QOS + (p.Message.Retain ? 1 : 0)
+//
+//@ func (p *Publish) len() (n int)
+//@   ensures n == pubrl(p)
+//@ func (p *Publish) Len() (n int)
+//@   ensures [size] pubrl(p) <= 268435455 ==> n == 1 + vlen(pubrl(p)) + pubrl(p)
+//@   ensures [big]  pubrl(p) > 268435455 ==> n == 1 + pubrl(p)
+//
+//@ spec pred publish_layout(dst []byte, p *Publish) = hdr_at(dst, 3, pubflags(p), pubrl(p)) && be16(dst, 1 + vlen(pubrl(p))) == len(p.Message.Topic) && (forall k int {dst[k]} :: 3 + vlen(pubrl(p)) <= k && k < 3 + vlen(pubrl(p)) + len(p.Message.Topic) ==> dst[k] == p.Message.Topic[k - 3 - vlen(pubrl(p))]) && (p.Message.QOS > 0 ==> be16(dst, 3 + vlen(pubrl(p)) + len(p.Message.Topic)) == p.ID) && (forall k int {dst[k]} :: 1 + vlen(pubrl(p)) + pubrl(p) - len(p.Message.Payload) <= k && k < 1 + vlen(pubrl(p)) + pubrl(p) ==> dst[k] == p.Message.Payload[k - (1 + vlen(pubrl(p)) + pubrl(p) - len(p.Message.Payload))])
+//
+//@ func (p *Publish) Encode(dst []byte) (n int, err error)
+//@   requires [sep]    arr(p.Message.Payload) != arr(dst) || len(p.Message.Payload) == 0
+//@   ensures [ok]      wf_publish(p) && len(dst) >= 1 + vlen(pubrl(p)) + pubrl(p) ==> err == nil
+//@   ensures [rej]     err == nil ==> wf_publish(p) && len(dst) >= 1 + vlen(pubrl(p)) + pubrl(p)
+//@   ensures [count]   err == nil ==> n == 1 + vlen(pubrl(p)) + pubrl(p)
+//@   ensures [l-hdr]   err == nil ==> hdr_at(dst, 3, pubflags(p), pubrl(p))
+//@   ensures [l-tlen]  err == nil ==> be16(dst, 1 + vlen(pubrl(p))) == len(p.Message.Topic)
+//@   ensures [l-topic] err == nil ==> forall k int {dst[k]} :: 3 + vlen(pubrl(p)) <= k && k < 3 + vlen(pubrl(p)) + len(p.Message.Topic) ==> dst[k] == p.Message.Topic[k - 3 - vlen(pubrl(p))]
+//@   ensures [l-id]    err == nil && p.Message.QOS > 0 ==> be16(dst, 3 + vlen(pubrl(p)) + len(p.Message.Topic)) == p.ID
+//@   ensures [l-payload] err == nil ==> forall k int {dst[k]} :: 1 + vlen(pubrl(p)) + pubrl(p) - len(p.Message.Payload) <= k && k < 1 + vlen(pubrl(p)) + pubrl(p) ==> dst[k] == p.Message.Payload[k - (1 + vlen(pubrl(p)) + pubrl(p) - len(p.Message.Payload))]
+//@   ensures [layout]  err == nil ==> publish_layout(dst, p)
+//@   modifies dst[0:len(dst)]
+//
+//@ spec func pub_tl(src []byte) int = be16(src, hlen(src))
+//@ spec func pub_qos(src []byte) int = (src[0] % 8) / 2
+//@ spec func pub_idl(src []byte) int = pub_qos(src) > 0 ? 2 : 0
+//@ spec pred publish_valid(src []byte) = hdr_ok(src, 3) && pub_qos(src) <= 2 && rlen(src) >= 2 && rlen(src) >= 2 + pub_tl(src) + pub_idl(src) && pub_tl(src) >= 1 && (pub_qos(src) > 0 ==> be16(src, hlen(src) + 2 + pub_tl(src)) != 0)
+//
+//@ func (p *Publish) Decode(src []byte) (n int, err error)
+//@   ensures [bound]   0 <= n && n <= len(src)
+//@   ensures [accept]  err == nil <==> publish_valid(src)
+//@   ensures [extent]  err == nil ==> n == hlen(src) + rlen(src)
+//@   ensures [flags]   err == nil ==> (p.Dup <==> (src[0] % 16) / 8 == 1) && (p.Message.Retain <==> src[0] % 2 == 1) && p.Message.QOS == pub_qos(src)
+//@   ensures [topic]   err == nil ==> p.Message.Topic == str(src, hlen(src) + 2, pub_tl(src))
+//@   ensures [id]      err == nil && pub_qos(src) > 0 ==> p.ID == be16(src, hlen(src) + 2 + pub_tl(src))
+//@   ensures [payload] err == nil && rlen(src) > 2 + pub_tl(src) + pub_idl(src) ==> len(p.Message.Payload) == rlen(src) - 2 - pub_tl(src) - pub_idl(src) && forall k int {p.Message.Payload[k]} :: 0 <= k && k < len(p.Message.Payload) ==> p.Message.Payload[k] == src[hlen(src) + 2 + pub_tl(src) + pub_idl(src) + k]
+//@   ensures [nopayload] err == nil && rlen(src) == 2 + pub_tl(src) + pub_idl(src) ==> p.Message.Payload == old(p.Message.Payload)
+//@   ensures [owned]   err == nil && rlen(src) > 2 + pub_tl(src) + pub_idl(src) ==> fresh(p.Message.Payload)
+//@   ensures [reencodable] err == nil ==> len(p.Message.Topic) >= 1 && len(p.Message.Topic) <= 65535 && p.Message.QOS <= 2 && (p.Message.QOS > 0 ==> p.ID != 0)
+//@   modifies p.Dup, p.ID, p.Message
